@@ -132,7 +132,25 @@ def mk_interp(prog, orc=None):
                     p = a.payload
                     return p.simplify() if isinstance(p, Rope) else p
                 if isinstance(a, Term) and a.op in ('fstr',):
-                    raise RaiseEx('Error', 'binascii.Error: raw form is not base64')
+                    # the non-strict decoder of the standard library DISCARDS characters outside its alphabet (the ':' of the raw form)
+                    # and refuses only a wrong number of remaining characters; '-' and hex digits are in the url-safe alphabet
+                    alphabet = set('ABCDEFGHIJKLMNOPQRSTUVWXYZabcdefghijklmnopqrstuvwxyz0123456789' + ('-_' if last.startswith('urlsafe') else '+/'))
+                    if kw.get('validate') is not None and it.truth(kw['validate']):
+                        raise RaiseEx('Error', 'binascii.Error: non-base64 character in the raw form')
+                    count = 0
+                    for p_ in a.a:
+                        if isinstance(p_, K) and isinstance(p_.v, (str, int)) and not isinstance(p_.v, bool):
+                            count += sum(ch in alphabet for ch in str(p_.v))
+                        elif isinstance(p_, Term) and p_.op == 'hex':
+                            r_ = Rope.of(it, p_.a[0])
+                            if r_ is None or not isinstance(r_.n, int):
+                                raise Fail('base64 decoding of a text with a hex part of unknown length')
+                            count += 2 * r_.n
+                        else:
+                            raise Fail(f'base64 decoding of a text with an unknown part {p_!r}')
+                    if count % 4:
+                        raise RaiseEx('Error', f'binascii.Error: {count} base64 characters is not a multiple of 4')
+                    return Sym(f'b64decode<{count} chars of the raw form>', ty='bytes', n=count * 3 // 4, key=('b64raw', vrepr(a)))
         return None
     it.ext_hook = ext_hook
 
